@@ -386,3 +386,64 @@ Definition consume_log_ok (content : bytes) (may_fail : bool) (l : list cbrec) :
             end
      | [] => false
      end.
+
+(* ---- decidable versions of the hypotheses of the consumer theorems (FetchSafe.run_ok, FetchBudget.run_clean, wf_world,
+   quiescent), so that the runner can check on every generated trace that the theorem applies, and evaluate its
+   conclusion on the implementation's callbacks. Soundness: FetchCheck.v. ---- *)
+Definition is_failureb (r : result) : bool := match r with RData _ _ _ _ => false | _ => true end.
+Definition honest_datab (segs : list bytes) (k : nat) (r : result) : bool :=
+  match r with
+  | RData nm payload (Some fbc) _ =>
+      match rev nm with
+      | c :: _ =>
+          (k <? length segs) && bytes_eqb payload (nth k segs []) && N.eqb (ctyp c) typSegment
+          && N.eqb (comp_num64 c) (N.of_nat k) && N.eqb (ctyp fbc) typSegment
+          && N.eqb (comp_num64 fbc) (N.of_nat (length segs - 1))
+      | [] => false
+      end
+  | _ => false
+  end.
+Definition ev_okb (W : nat -> list bytes) (c : client) (e : cev) : bool :=
+  match e with
+  | EvResult xid r =>
+      match take_pending xid (c_pending c) with
+      | Some (x, _) => match x_kind x with
+                       | SegI kN => is_failureb r || honest_datab (W (x_sid x)) (N.to_nat kN) r
+                       | MetaI => true
+                       end
+      | None => true
+      end
+  | _ => true
+  end.
+Definition ev_cleanb (c : client) (e : cev) : bool :=
+  match e with
+  | EvResult xid r =>
+      match take_pending xid (c_pending c) with
+      | Some (x, _) =>
+          match r with
+          | RTimeout => 0 <? x_retries x
+          | RData _ _ _ meta => match x_kind x with
+                                | SegI _ => true
+                                | MetaI => match meta with Some inner => last_is_version inner | None => false end
+                                end
+          | _ => false
+          end
+      | None => true
+      end
+  | EvConsume nm _ => match nm with [] => false | _ => true end
+  | _ => true
+  end.
+Fixpoint run_checkb (W : nat -> list bytes) (c : client) (evs : list cev) : bool * bool * client :=
+  (* (run_ok, run_clean, final state) *)
+  match evs with
+  | [] => (true, true, c)
+  | e :: r => let '(a, b, c') := run_checkb W (step c e) r in (ev_okb W c e && a, ev_cleanb c e && b, c')
+  end.
+Definition wf_objectb (segs : list bytes) : bool :=
+  (1 <=? length segs) && (N.of_nat (length segs) <=? maxObjectSeg)%N
+  && forallb (fun b => match b with [] => false | _ => true end) segs.
+Definition quiescentb (c : client) : bool :=
+  match c_outpipe c, c_seginpipe c, c_segfetch c, c_segcheck c, c_pending c with
+  | [], [], [], O, [] => true
+  | _, _, _, _, _ => false
+  end.
